@@ -248,6 +248,9 @@ for _p in ("C02", "C03", "C05", "C06", "C07", "C08", "C09", "C10", "C13", "C16",
 for _p in ("C01", "C15", "C19"):
     CLAIMED[_p]["technique"] += (" DERIVED-SEQ: may-stale dataflow over (derived field, source field) pairs inside each Stream method, helpers inlined - a derived field is "
                                  "never left computed from a source the same method rewrites afterwards.")
+for _p in ("C01", "C06", "C14"):
+    CLAIMED[_p]["technique"] += (" OFFSET-FREE: cone scan (function, resolved callees, referenced module tables and lambdas) of the value extractor shared by absolute "
+                                 "temperatures and the temperature difference dt_cont - no additive constant may be applied to the extracted value.")
 CLAIMED["C10"]["technique"] += " DEDUP-ID: taint of input stream records into every keep-one-per-key construct (identity keys only)."
 
 NOT_APPLICABLE = {
